@@ -12,7 +12,10 @@ use std::collections::BTreeSet;
 
 const NAU: usize = NA as usize;
 /// ops per actor in the counter universes
+#[cfg(not(vthorough))]
 const NO: usize = 2;
+#[cfg(vthorough)]
+const NO: usize = 3;
 
 /// counter universe: actor `a` issues `NO` increments with steps `step[a][j]` (1..=2, or 0 for
 /// `inc_many(_, 0)`); op j of actor a is the dot (a, step[a][0] + .. + step[a][j])
@@ -95,7 +98,7 @@ fn gsum(u: &CU, k: &CK) -> u64 {
     s
 }
 
-//@ harness props=C11,C01,C03,C08,C09 covers=3,4 name=GCounter: apply of any op (new, duplicate, out of order) to SPEC(K) gives SPEC(K+op); read is the sum of the largest totals; inc/inc_many derive the next dot
+//@ harness props=C11,C01,C03,C08,C09 bounds=thorough:big covers=3,4 name=GCounter: apply of any op (new, duplicate, out of order) to SPEC(K) gives SPEC(K+op); read is the sum of the largest totals; inc/inc_many derive the next dot
 #[no_mangle]
 pub fn h_c11_gcounter_apply(inp: &Inp) -> u8 {
     let mut i = In::new(inp);
@@ -149,7 +152,7 @@ pub fn h_c11_gcounter_apply(inp: &Inp) -> u8 {
     }
 }
 
-//@ harness props=C11,C02,C03,C09 name=GCounter: merge(SPEC(K1), SPEC(K2)) == SPEC(K1 u K2), commutative, read is the sum
+//@ harness props=C11,C02,C03,C09 bounds=thorough:big name=GCounter: merge(SPEC(K1), SPEC(K2)) == SPEC(K1 u K2), commutative, read is the sum
 #[no_mangle]
 pub fn h_c11_gcounter_merge(inp: &Inp) -> u8 {
     let mut i = In::new(inp);
@@ -182,7 +185,7 @@ fn pnspec(up: &CU, kp: &CK, un: &CU, kn: &CK) -> PNCounter<u8> {
     pacc::from_parts(gspec(up, kp), gspec(un, kn))
 }
 
-//@ harness props=C11,C01,C03,C08,C09 covers=3 name=PNCounter: apply of any inc/dec op to SPEC(K) gives SPEC(K+op); read = sum of increments - sum of decrements; inc/dec/inc_many/dec_many derive the next dot
+//@ harness props=C11,C01,C03,C08,C09 bounds=thorough:big covers=3 name=PNCounter: apply of any inc/dec op to SPEC(K) gives SPEC(K+op); read = sum of increments - sum of decrements; inc/dec/inc_many/dec_many derive the next dot
 #[no_mangle]
 pub fn h_c11_pncounter_apply(inp: &Inp) -> u8 {
     let mut i = In::new(inp);
@@ -248,7 +251,7 @@ pub fn h_c11_pncounter_apply(inp: &Inp) -> u8 {
     }
 }
 
-//@ harness props=C11,C02,C03,C09 name=PNCounter: merge(SPEC(K1), SPEC(K2)) == SPEC(K1 u K2), commutative
+//@ harness props=C11,C02,C03,C09 bounds=thorough:big name=PNCounter: merge(SPEC(K1), SPEC(K2)) == SPEC(K1 u K2), commutative
 #[no_mangle]
 pub fn h_c11_pncounter_merge(inp: &Inp) -> u8 {
     let mut i = In::new(inp);
@@ -286,7 +289,7 @@ pub fn h_c11_pncounter_merge(inp: &Inp) -> u8 {
 /// number of ops in the register / set universes
 const NW: usize = 3;
 
-//@ harness props=C11,C01,C02,C03,C08,C09 covers=3 name=MaxReg / MinReg: after any sequence of applies and merges the register reads the largest / smallest value ever applied (any order, duplicates)
+//@ harness props=C11,C01,C02,C03,C08,C09 bounds=thorough:big covers=3 name=MaxReg / MinReg: after any sequence of applies and merges the register reads the largest / smallest value ever applied (any order, duplicates)
 #[no_mangle]
 pub fn h_c11_maxmin(inp: &Inp) -> u8 {
     let mut i = In::new(inp);
@@ -368,7 +371,7 @@ pub fn h_c11_maxmin(inp: &Inp) -> u8 {
     }
 }
 
-//@ harness props=C11,C01,C02,C03,C08,C09,C16,C17 covers=3,4 name=LWWReg: greatest marker wins under any order / duplication / merge; validate_op and validate_merge flag exactly an equal marker with a different value
+//@ harness props=C11,C01,C02,C03,C08,C09,C16,C17 bounds=thorough:big covers=3,4 name=LWWReg: greatest marker wins under any order / duplication / merge; validate_op and validate_merge flag exactly an equal marker with a different value
 #[no_mangle]
 pub fn h_c11_lww(inp: &Inp) -> u8 {
     let mut i = In::new(inp);
@@ -481,7 +484,7 @@ pub fn h_c11_lww(inp: &Inp) -> u8 {
     }
 }
 
-//@ harness props=C11,C01,C02,C03,C08,C09 covers=3 name=GSet: reads the union of inserted elements under any order / duplication / merge
+//@ harness props=C11,C01,C02,C03,C08,C09 bounds=thorough:big covers=3 name=GSet: reads the union of inserted elements under any order / duplication / merge
 #[no_mangle]
 pub fn h_c11_gset(inp: &Inp) -> u8 {
     let mut i = In::new(inp);
